@@ -74,11 +74,17 @@ func traceDigest(obs *Obs, skipKeys map[string]bool) string {
 		h.Write([]byte(l))
 		h.Write([]byte{'\n'})
 	}
+	// events emitted by different goroutines within one step have no defined order: hash them sorted per step
+	var evl []string
 	for _, e := range obs.Events {
 		if isHeartbeat(e.M) {
 			continue
 		}
-		fmt.Fprintf(h, "E%d %s\n", e.Step, EventLine(e.M, skipKeys))
+		evl = append(evl, fmt.Sprintf("E%06d %s\n", e.Step, EventLine(e.M, skipKeys)))
+	}
+	sort.Strings(evl)
+	for _, l := range evl {
+		h.Write([]byte(l))
 	}
 	for i, c := range obs.Conns {
 		// replies may list things in Go map iteration order (FTP FEAT): hash the sorted lines
